@@ -82,9 +82,10 @@ class JsonUtil:
                 type ``int``, ``float``, ``bool``, or ``NoneType``.)
         """
         cls = value.__class__
-        if (cls == str or cls == int or cls == float or cls == bool or
-                value is None):
+        if cls == int or cls == float or cls == bool or value is None:
             return value
+        elif cls == str:
+            return JsonUtil._sanitize_str(value)
 
         if isinstance(value, (list, tuple)):
             return list([JsonUtil.sanitize(element) for element in value])
@@ -96,7 +97,7 @@ class JsonUtil:
         elif isinstance(value, str):
             # Like the json module, ignore __str__ overrides in subclasses of
             # str, e.g. in the members of an enum that derives from str
-            return str.__str__(value)
+            return JsonUtil._sanitize_str(str.__str__(value))
         elif isinstance(value, int):
             # Likewise, ignore __int__ and __float__ overrides
             return int.__int__(value)
@@ -104,6 +105,24 @@ class JsonUtil:
             return float.__float__(value)
         else:
             raise TypeError('The value is not a JSON value')
+
+    @staticmethod
+    def _sanitize_str(value):
+        """Return the result of sanitizing the specified ``str``.
+
+        This is equivalent to ``json.loads(json.dumps(value))``. The
+        result differs from ``value`` if it contains a high surrogate
+        followed by a low surrogate: ``json.dumps`` escapes the two
+        separately, and ``json.loads`` decodes the pair of escape
+        sequences as a single character.
+        """
+        try:
+            # Optimization: A string without surrogates is its own result
+            value.encode('utf-8')
+            return value
+        except UnicodeEncodeError:
+            return value.encode('utf-16', 'surrogatepass').decode(
+                'utf-16', 'surrogatepass')
 
     @staticmethod
     def _key_to_str(key):
@@ -115,11 +134,11 @@ class JsonUtil:
         ``list(json.loads(json.dumps({key: None})).keys())[0]``.
         """
         if key.__class__ == str:
-            return key
+            return JsonUtil._sanitize_str(key)
         elif isinstance(key, str):
             # Like the json module, ignore __str__ overrides in subclasses of
             # str
-            return str.__str__(key)
+            return JsonUtil._sanitize_str(str.__str__(key))
         elif isinstance(key, bool):
             if bool(key):
                 return 'true'
